@@ -60,6 +60,10 @@ pub struct Report {
     pub skipped: BTreeMap<String, u64>,
 }
 impl Report {
+    /// a report that only counts (used for nested checks)
+    pub fn sink() -> Report {
+        Report { out: Box::new(std::io::sink()), case_id: -1, findings: 0, counts: BTreeMap::new(), skipped: BTreeMap::new() }
+    }
     pub fn count(&mut self, check: &str) {
         *self.counts.entry(check.to_string()).or_insert(0) += 1;
     }
